@@ -47,16 +47,18 @@ Steps(s, as) ==
               LET ok == Accepted(c.a) as2 == IF ok THEN Put(as, c.a) ELSE as IN
               << Step("aka_setattr", PSet, FALSE, [t |-> c.a.t, v |-> c.a.v], [panic |-> FALSE, err |-> ~ok, attrs |-> as2]) >> \o Steps(Tail(s), as2)
          [] c.op = "marshal" ->
-              << Step("aka_marshal", PSet, FALSE, [x |-> 0], [panic |-> FALSE, err |-> FALSE, wire |-> EncEap(Pkt(as)), attrs |-> as]) >> \o Steps(Tail(s), as)
+              << Step("aka_marshal", PSet, FALSE, [x |-> 0], [panic |-> FALSE, err |-> FALSE, wire |-> EncEap(Pkt(as)), twice |-> TRUE, attrs |-> as]) >> \o Steps(Tail(s), as)
          [] OTHER ->
               LET as2 == Put(as, [t |-> AT_MAC, v |-> Zeros(16)]) IN
               << Step("aka_calcmac", PMac, FALSE, [key |-> Key, site |-> "object-history"],
-                      [panic |-> FALSE, err |-> FALSE, mac |-> Slice(Hmac("sha256", Key, Lit(EncEap(Pkt(as2)))), 0, 16)]) >> \o Steps(Tail(s), as2)
+                      \* (the order of the attributes on the wire is the encoder's choice: the code is over the octets the object emits -- macok,
+                      \*  computed by the harness with the standard library -- and those octets are the reference encoding attribute by attribute)
+                      [panic |-> FALSE, err |-> FALSE, macok |-> TRUE, refwire |-> EncEap(Pkt(as2))]) >> \o Steps(Tail(s), as2)
 
 HistVector(s) == Vector("akahist", << IF FromWire THEN Step("aka_load", PSet, FALSE, [wire |-> EncEapW(WirePkt)], [panic |-> FALSE, err |-> FALSE, attrs |-> Attrs0])
                                                       ELSE Step("aka_new", PSet, FALSE, [code |-> 2, id |-> 33, sub |-> 1], [panic |-> FALSE, attrs |-> << >>]) >>
                                    \o Steps(s, Attrs0)
-                                   \o << Step("aka_marshal", PSet, FALSE, [x |-> 0], [panic |-> FALSE, err |-> FALSE, wire |-> EncEap(Pkt(attrs)), attrs |-> attrs]) >>)
+                                   \o << Step("aka_marshal", PSet, FALSE, [x |-> 0], [panic |-> FALSE, err |-> FALSE, wire |-> EncEap(Pkt(attrs)), twice |-> TRUE, attrs |-> attrs]) >>)
 Emit == done => PrintT(ToJson(HistVector(ops)))
 Sound == done => EapEncodable(Pkt(attrs))
 =============================================================================
